@@ -38,7 +38,66 @@ class C05(object):
     tolerances = {'symbolic': 'exact rational coefficients', 'numeric': 'atol 1e-9'}
     exhaustive = {'thorough': True}
 
+    def gen_partitions(self, rng, tier):
+        """dit.utils.partitions (what CAEKL minimises over) against Core/SetPart.lean `partitions1` and `setPartitions`."""
+        sizes = list(range(0, 7)) if tier == 'quick' else list(range(0, 9))
+        for m in sizes:
+            yield {'kind': 'partitions', 'items': list(range(m)), 'measure': 'partitions', 'n': m, 'groups': [], 'crvs': [],
+                   'k': 0, 'byname': False, 'pmf': []}
+        for _ in range(6 if tier == 'quick' else 60):
+            m = rng.randint(1, 6)
+            yield {'kind': 'partitions', 'items': rng.sample(range(20), m), 'measure': 'partitions', 'n': m, 'groups': [],
+                   'crvs': [], 'k': 0, 'byname': False, 'pmf': []}
+
+    def run_partitions(self, case, drv):
+        dit = import_dit()
+        from dit.utils import partitions
+        from dit.utils.misc import partitions1
+        r = core.Result()
+        r.site = 'dit.utils.partitions'
+        items = case['items']
+        r.features = ['kind=partitions', 'size=%d' % len(items)]
+        r.nontrivial = len(items) >= 3
+        # 1. the generator the code runs, in its own order
+        # (below the first level the code recurses on Python sets, whose iteration order is ascending for 0..m-1 but
+        # hash-dependent in general: the order of the enumeration is compared for items = range(m) only)
+        got1 = [[sorted(b) for b in p] for p in partitions1(list(items))]
+        want1 = [[sorted(b) for b in p] for p in drv.call('partitions1', [items])]
+        if items != list(range(len(items))):
+            got1, want1 = sorted(map(sorted, got1)), sorted(map(sorted, want1))
+        if got1 != want1:
+            r.mismatch = 'partitions1(%s): impl %s model %s' % (items, got1[:6], want1[:6])
+            return r
+        # 2. as sets of sets: dit.utils.partitions (both output forms) = the model's recursive enumeration
+        canon = lambda ps: sorted(sorted(sorted(b) for b in p) for p in ps)
+        a = canon(partitions(items))
+        b = canon(partitions(items, tuples=True))
+        c = canon(drv.call('setpartitions', [items]))
+        if a != c or b != c:
+            r.mismatch = 'partitions(%s) as sets of sets: %d / %d members, model %d' % (items, len(a), len(b), len(c))
+            return r
+        # 3. the statement-level facts, on the real output: every member is a partition, no repetition, Bell number of them
+        bell = [1, 1, 2, 5, 15, 52, 203, 877, 4140, 21147][len(items)]
+        if len(a) != bell or any(a[i] == a[i + 1] for i in range(len(a) - 1)):
+            r.oracle_fail = 'partitions(%s) yields %d members (%d distinct); there are %d set partitions' % (
+                items, len(a), len(set(map(str, a))), bell)
+            return r
+        for p in a:
+            flat = sorted(x for blk in p for x in blk)
+            if flat != sorted(items) or any(not blk for blk in p):
+                r.oracle_fail = 'partitions(%s) yields %s, which is not a partition' % (items, p)
+                return r
+        # tuples=True: blocks sorted, partition sorted quasi-lexicographically (shorter blocks first)
+        for p in partitions(items, tuples=True):
+            key = [(len(blk), blk) for blk in p]
+            if any(tuple(sorted(blk)) != blk for blk in p) or key != sorted(key):
+                r.oracle_fail = 'partitions(%s, tuples=True) yields %s, not in sorted form' % (items, p)
+                return r
+        return r
+
     def gen(self, rng, tier):
+        for c in self.gen_partitions(rng, tier):
+            yield c
         n_cases = 260 if tier == 'quick' else 15000
         if tier == 'thorough':
             for c in self.exhaustive_shapes(rng):
@@ -120,6 +179,10 @@ class C05(object):
                                 yield c
 
     def shrink(self, case):
+        if case.get('kind') == 'partitions':
+            if len(case['items']) > 1:
+                yield dict(case, items=case['items'][:-1], n=len(case['items']) - 1)
+            return
         outs, pmf = case['outs'], [Fraction(p) for p in case['pmf']]
         if len(outs) > 1:
             for i in range(len(outs)):
@@ -143,6 +206,8 @@ class C05(object):
 
     # ------------------------------------------------------------------
     def run(self, case, drv):
+        if case.get('kind') == 'partitions':
+            return self.run_partitions(case, drv)
         dit = import_dit()
         r = core.Result()
         name = case['measure']
